@@ -67,12 +67,13 @@ def gen_spec(rng, *, random_units=True, sl_bias=0.35, rules=None, currents=None,
     want_sl = rng.random() < sl_bias
     nst = rng.randint(1, max_stages)
     sl_done = False
+    sl_stage = rng.randrange(nst)      # the self-locking worm stage is anywhere in the chain, other worm stages may follow it
     for st in range(nst):
         kinds = ['spur', 'helical', 'fly', 'worm']
         if allow_rev_worm:
             kinds.append('wormrev')
         kind = rng.choice(kinds)
-        if want_sl and not sl_done and st == nst - 1:
+        if want_sl and not sl_done and st == sl_stage:
             kind = 'worm'
         if kind == 'fly':
             i = add({'type': 'fly', 'J': J()})
